@@ -26,6 +26,8 @@ static mut SUIRON_STOP_QUERY: bool = false;
 /// let timer = start_query_timer(300);
 /// ```
 pub fn start_query_timer(milliseconds: u64) -> ThreadTimer {
+    #[cfg(suiron_verif)]
+    verif_probe::probe(verif_probe::START_QUERY_TIMER, milliseconds);
     unsafe { SUIRON_STOP_QUERY = false; }
     let timer = ThreadTimer::new();
     timer.start(Duration::from_millis(milliseconds),
@@ -45,7 +47,13 @@ pub fn start_query_timer(milliseconds: u64) -> ThreadTimer {
 /// cancel_timer(timer);
 /// ```
 pub fn cancel_timer(timer: ThreadTimer) {
+    #[cfg(suiron_verif)]
+    verif_probe::probe(verif_probe::CANCEL_TIMER, 0);
     match timer.cancel() {
+        #[cfg(suiron_verif)]
+        Ok(_) => { verif_probe::probe(verif_probe::CANCEL_RESULT, 1); },
+        #[cfg(suiron_verif)]
+        Err(_) => { verif_probe::probe(verif_probe::CANCEL_RESULT, 0); },
         Ok(_) => {},
         Err(_) => {},
     }
@@ -59,6 +67,8 @@ pub fn cancel_timer(timer: ThreadTimer) {
 /// In order to keep the substitution set small, the LOGIC_VAR_ID is
 /// reset to 0 at the start of every query.
 pub fn start_query() {
+    #[cfg(suiron_verif)]
+    verif_probe::probe(verif_probe::START_QUERY, 0);
     unsafe { SUIRON_STOP_QUERY = false; }
     clear_id();
 }
@@ -68,6 +78,8 @@ pub fn start_query() {
 /// The SUIRON_STOP_QUERY is checked in count_rules(), in knowledgebase.rs.
 /// Setting it `true` effectively stops the search for a solution.
 pub fn stop_query() {
+    #[cfg(suiron_verif)]
+    verif_probe::probe(verif_probe::STOP_QUERY, 0);
     unsafe { SUIRON_STOP_QUERY = true; }
 }
 
@@ -77,7 +89,51 @@ pub fn stop_query() {
 /// # Return
 /// * true/false
 pub fn query_stopped() -> bool {
+    #[cfg(suiron_verif)]
+    verif_probe::probe(verif_probe::QUERY_STOPPED, 0);
     unsafe { SUIRON_STOP_QUERY }
+}
+
+/// Verification seam (compiled only with `--cfg suiron_verif`; absent from
+/// ordinary builds). A simulator can install one function that is called
+/// immediately before every access to the query-stop flag and around the
+/// timer cancellation, which gives it a scheduling point and a clock tick
+/// at exactly those places. With no function installed the probes do nothing.
+#[cfg(suiron_verif)]
+pub mod verif_probe {
+    use std::sync::atomic::{AtomicUsize, Ordering};
+
+    pub const START_QUERY_TIMER: u32 = 1; // arg: milliseconds
+    pub const START_QUERY: u32 = 2;
+    pub const STOP_QUERY: u32 = 3;
+    pub const QUERY_STOPPED: u32 = 4;
+    pub const CANCEL_TIMER: u32 = 5;
+    pub const CANCEL_RESULT: u32 = 6; // arg: 1 = Ok, 0 = Err
+
+    pub type Probe = fn(site: u32, arg: u64);
+
+    static PROBE: AtomicUsize = AtomicUsize::new(0);
+
+    /// Installs (Some) or removes (None) the probe function.
+    pub fn set_probe(p: Option<Probe>) {
+        let v = match p { Some(f) => f as usize, None => 0 };
+        PROBE.store(v, Ordering::SeqCst);
+    }
+
+    #[inline]
+    pub fn probe(site: u32, arg: u64) {
+        let v = PROBE.load(Ordering::SeqCst);
+        if v != 0 {
+            let f: Probe = unsafe { std::mem::transmute::<usize, Probe>(v) };
+            f(site, arg);
+        }
+    }
+
+    /// Reads the flag without passing through a probe (for the simulator's
+    /// own bookkeeping, so that observing does not perturb the schedule).
+    pub fn peek_flag() -> bool {
+        unsafe { super::SUIRON_STOP_QUERY }
+    }
 }
 
 #[cfg(test)]
